@@ -49,6 +49,7 @@ type worker[T any, JobType iJob[T]] struct {
 	errorChan       chan error
 	waiters         *sync.Cond
 	tickers         []*time.Ticker
+	tickersDone     []chan struct{}
 	mx              sync.RWMutex
 	ctx             context.Context
 	cancel          context.CancelFunc
@@ -406,26 +407,37 @@ func (w *worker[T, JobType]) goRemoveIdleWorkers() {
 	}
 
 	ticker := time.NewTicker(interval)
+	// a stopped ticker never closes its channel: the remover needs its own exit signal
+	done := make(chan struct{})
 	w.mx.Lock()
 	w.tickers = append(w.tickers, ticker)
+	w.tickersDone = append(w.tickersDone, done)
 	w.mx.Unlock()
 
 	go func() {
-		for range ticker.C {
+		for {
+			select {
+			case <-done:
+				return
+			case <-ticker.C:
+			}
+
 			// Calculate the target number of idle workers
 			targetIdleWorkers := w.numMinIdleWorkers()
 
+			nodes := w.pool.NodeSlice()
+
 			// if the number of idle workers is less than or equal to the target, continue
-			if w.pool.Len() <= targetIdleWorkers {
+			if len(nodes) <= targetIdleWorkers {
 				continue
 			}
 
-			nodes := w.pool.NodeSlice()
 			// If we have more nodes than our target, close the excess ones
 			for _, node := range nodes[targetIdleWorkers:] {
-				if node.Value.GetLastUsed().Add(interval).Before(time.Now()) &&
-					!(node.Next() == nil && node.Prev() == nil) { // if both nil, it means the node is not in the list and not idle
-					w.pool.Remove(node)
+				// Remove reports whether the node was still in the idle list. Only then is it
+				// ours to stop: the dispatcher may have taken it since the snapshot, and
+				// stopping a node that has just been handed a job strands that job.
+				if node.Value.GetLastUsed().Add(interval).Before(time.Now()) && w.pool.Remove(node) {
 					node.Value.Stop()
 					w.pool.Cache.Put(node)
 				}
@@ -474,7 +486,12 @@ func (w *worker[T, JobType]) stopTickers() {
 		ticker.Stop()
 	}
 
+	for _, done := range w.tickersDone {
+		close(done)
+	}
+
 	w.tickers = make([]*time.Ticker, 0)
+	w.tickersDone = nil
 }
 
 func (w *worker[T, JobType]) closeChannels() {
@@ -494,9 +511,11 @@ func (w *worker[T, JobType]) closeChannels() {
 // stopAndRemoveAllWorkers removes all nodes from the list and closes the pool nodes
 func (w *worker[T, JobType]) stopAndRemoveAllWorkers() {
 	for _, node := range w.pool.NodeSlice() {
-		w.pool.Remove(node)
-		node.Value.Stop()
-		w.pool.Cache.Put(node)
+		// a node that is no longer in the idle list belongs to whoever took it
+		if w.pool.Remove(node) {
+			node.Value.Stop()
+			w.pool.Cache.Put(node)
+		}
 	}
 }
 
@@ -634,6 +653,8 @@ func (w *worker[T, JobType]) Restart() error {
 		return ErrNotRunningWorker
 	}
 
+	// start() creates a new ticker (and idle worker remover) for the next run
+	w.stopTickers()
 	w.closeChannels()
 
 	w.mx.Lock()
